@@ -91,6 +91,28 @@ func init() {
 				}
 				add(triIn{Tri: true, NF: 3, Ac: true, Docs: docs, Qs: qs})
 			}
+			// one conjunction with an include and an exclude on the SAME field (different values); assignments that list the
+			// excluded value before the included one, after it, alone (first-round seed C18, which the random documents stopped
+			// producing): exclusion dominates in all three implementations
+			for _, ps := range []string{"", "number"} {
+				iv := func(ns ...int64) TV {
+					l := make([]TV, len(ns))
+					for i, n := range ns {
+						l[i] = tvInt("int", n)
+					}
+					return tvSlice("[]int", l...)
+				}
+				docs := []eDoc{
+					{ID: 1, Cons: []eConj{{{F: 0, Inc: true, V: iv(1, 2)}, {F: 0, Inc: false, V: iv(3)}}}},
+					{ID: 2, Cons: []eConj{{{F: 0, Inc: false, V: iv(1)}, {F: 0, Inc: true, V: iv(3, 4)}, {F: 1, Inc: true, V: iv(9)}}}},
+					{ID: 3, Cons: []eConj{{{F: 0, Inc: true, V: iv(3)}}}},
+				}
+				var qs []eQuery
+				for _, v := range []TV{iv(3, 1), iv(1, 3), iv(1), iv(3), iv(2, 3), iv(3, 2), iv(4, 1), iv(1, 4), iv(4)} {
+					qs = append(qs, eQuery{A: []eAssign{{F: 0, V: v}}}, eQuery{A: []eAssign{{F: 0, V: v}, {F: 1, V: tvInt("int", 9)}}})
+				}
+				add(triIn{Tri: true, Parser: ps, NF: 2, Docs: docs, Qs: qs})
+			}
 			// pattern fields: the three implementations must join lists, match keywords and combine with ordinary fields alike
 			for i := 0; i < n/5; i++ {
 				docs, qs := acDocsQueries(r, i%3 == 0)
